@@ -201,8 +201,9 @@ pub fn parse_tree(input: &str, ctx: &Context) -> Result<Tree, String> {
 /// operands (`Small(n)` if `small`, else `Large(limbs)` exactly as given):
 /// `mul` (`BigUint::mul`, i.e. `mul_internal` unless both are small and the
 /// product fits), `divmod`, `lshift` (one bit, through `lshift_n(1)`),
-/// `rshift` (one bit, through `rshift_n(1)`).  Returns the count, or the
-/// error message.  Only existing methods are called.
+/// `rshift` (one bit, through `rshift_n(1)`), `rshift_n` / `lshift_n` (shift
+/// `a` by the count `b`).  Returns the count, or the error message.  Only
+/// existing methods are called.
 pub fn biguint_polls(
 	op: &str,
 	a_small: bool,
@@ -232,6 +233,8 @@ pub fn biguint_polls(
 		"divmod" => x.divmod(&y, &int).map(|_| ()),
 		"lshift" => x.lshift_n(&BigUint::Small(1), &int).map(|_| ()),
 		"rshift" => x.rshift_n(&BigUint::Small(1), &int).map(|_| ()),
+		"rshift_n" => x.rshift_n(&y, &int).map(|_| ()),
+		"lshift_n" => x.lshift_n(&y, &int).map(|_| ()),
 		_ => return Err(format!("unknown op {op}")),
 	};
 	match r {
